@@ -197,7 +197,7 @@ def _parse_csv_with_units(
                 return x
         return x
 
-    df_data = df_data.applymap(_to_number_maybe)
+    df_data = df_data.map(_to_number_maybe)
 
     units_map = dict(zip(col_names, col_units))
 
